@@ -684,11 +684,14 @@ def plan_c14params(doc: dict, man: dict, args: dict) -> list:
                         base[p["python_name"]] = to_desc(p, vals[0])
         if not okk:
             continue
+        nullable_params = [p["python_name"] for loc in ("query", "header", "cookie") for p in ep["params"][loc]
+                           if None in (docs.resolve((eff.get((p["name"], loc)) or {}).get("schema") or {}, comps_of(doc)).get("enum") or [])]
+        acts.append({"a": "endpoint_info", "module": mod, "x": {"case": ep["name"], "signature": True, "null_listing": nullable_params}})
         for loc in ("query", "header", "cookie"):
             for p in ep["params"][loc]:
                 dp = eff.get((p["name"], loc))
                 sch = docs.resolve((dp or {}).get("schema") or {}, comps_of(doc))
-                if not isinstance(sch.get("enum"), list) or None not in sch["enum"]:
+                if not isinstance(sch.get("enum"), list) or (None not in sch["enum"] and not args.get("all_enums")):
                     continue
                 for v in sch["enum"]:
                     acts.append({"a": "call", "module": mod, "variants": ["sync_detailed"], "args": dict(base, **{p["python_name"]: (None if v is None else to_desc(p, v))}), "client": {}, "response": {"status": 200},
